@@ -39,7 +39,7 @@ STR_METHODS = {'strip', 'lstrip', 'rstrip', 'startswith', 'endswith', 'find', 'c
                'isspace', 'replace', 'split', 'index', 'rfind', 'isdigit', 'expandtabs'}
 PURE = set(PURE_CALLS) | STR_METHODS | {'enumerate', 'set', 'list', 'tuple', 'sorted', 'values', 'keys', 'items', 'isdisjoint',
                                           'pathname_sort_key', 'zip', 'zip_longest', 'range', 'iter', 'repr', 'max', 'min', 'sub', 'escape',
-                                          'dedent', 'sort_key', 'copy', 'format', 'join', 'search', 'match', 'fullmatch', 'len'}
+                                          'dedent', 'sort_key', 'copy', 'format', 'join', 'search', 'match', 'fullmatch', 'len', 'compile'}
 
 
 class Subst(ast.NodeTransformer):
